@@ -392,6 +392,7 @@ def _xy_label_cases(tier):
 
 def cases(tier, seed):
     out = _structure_cases(tier) + _config_cases(tier) + _provenance_cases(tier) + _xy_label_cases(tier)
+    big = _big_cases(tier)
     order = {m: i for i, m in enumerate(ALL_CLASSES)}
     sw = {"structure": 0, "config": 1, "provenance": 2, "xylabels": 3}
     simple = lambda c: (c["container"] != "DataArray") + (c["sdims"] != 1) + (c["ylabels"] != "same") + (c["mask"] != "none") + (c["flags"] != "default") + (c["labels"] != "ascending")  # noqa: E731
@@ -402,7 +403,70 @@ def cases(tier, seed):
         if key not in seen:
             seen.add(key)
             uniq.append(c)
-    return uniq
+    return uniq + big
+
+
+# ----------------------------------------------------------------------------- large noisy fields, DEFAULT pre-reduction
+# 60 samples x (7x8 | 6x9 | 5x9) features, three signals + full-rank noise: the default PCA pre-reduction of the cross-set and
+# multi-set classes (a variance fraction / 75 % of the rank, solved by a randomized sketch) is LOSSY there, unlike on the small
+# catalogue matrices where a sketch of k + 10 columns spans everything. Scores and transform must still agree exactly: both
+# are projections on the same stored basis.
+BIG_MODELS = ["multi.CCA", "MCA", "CCA", "RDA", "CPCCA", "ComplexMCA", "MCARotator", "CPCCARotator"]
+
+
+def _big_cases(tier):
+    out = []
+    for model in BIG_MODELS:
+        opts = [dict()]
+        if model == "multi.CCA":
+            opts = [dict(views=2), dict(views=3, c=0.2)] + ([dict(views=3, init_pca_modes=0.5), dict(views=2, variance_fraction=0.9)] if tier != "quick" else [])
+        elif tier != "quick" or model in ("MCA", "CPCCA"):
+            opts = [dict(), dict(n_pca_modes=20), dict(n_pca_modes=0.9)]
+        for o in opts:
+            for k in ((2,) if tier == "quick" else (1, 2, 4)):
+                out.append(dict(sweep="big", model=model, family="big", rot=None, n_modes=k, opts=o, container="DataArray", sdims=1, ylabels="same", mask="none", flags="default", labels="ascending"))
+    return out
+
+
+def _big_view(seed, salt, n, a, b, name, t0=0):
+    import xarray as xr
+
+    rng = np.random.default_rng([int(seed), 404, salt])
+    M = rng.normal(size=(n, 3)) @ rng.normal(size=(3, a * b)) * 2.0 + rng.normal(size=(n, a * b)) + rng.normal(size=a * b)
+    return xr.DataArray(M.reshape(n, a, b), dims=("time", "lat", "lon"), coords={"time": np.arange(n) + t0, "lat": np.linspace(-50, 50, a), "lon": np.arange(b) * 10.0}, name=name)
+
+
+def _run_big(case, seed):
+    import xeofs as xe
+
+    mname, k, o = case["model"], case["n_modes"], dict(case["opts"])
+    X, Y, Z = _big_view(seed, 1, 60, 7, 8, "x"), _big_view(seed, 2, 60, 6, 9, "y"), _big_view(seed, 3, 60, 5, 9, "z")
+    V = []
+    if mname == "multi.CCA":
+        views = [X, Y, Z][: o.pop("views")]
+        m = xe.multi.CCA(n_modes=k, **o).fit(views, "time")
+        pairs = list(zip(m.transform(views), m.scores()))
+        subject = m
+    else:
+        base = {"MCARotator": "MCA", "CPCCARotator": "CPCCA"}.get(mname, mname)
+        kw = dict(n_modes=max(k, 2), random_state=11, **o)
+        if base == "CPCCA":
+            kw["alpha"] = 0.5
+        m = getattr(xe.cross, base)(**kw).fit(X, Y, "time")
+        subject = m
+        if mname.endswith("Rotator"):
+            subject = getattr(xe.cross, mname)(n_modes=max(k, 2), power=1).fit(m)
+        pairs = list(zip(subject.transform(X, Y), subject.scores()))
+    for i, (t, s_) in enumerate(pairs):
+        t, s_ = t.transpose("time", "mode"), s_.transpose("time", "mode")
+        if list(t.time.values) != list(s_.time.values) or list(t.mode.values) != list(s_.mode.values):
+            V.append(viol("transform_labels", mname, "field %d: labels of transform(training data) differ from those of scores() on the large noisy fields" % i, big=True))
+            continue
+        den = max(float(np.abs(s_.values).max()), 1e-300)
+        e = float(np.abs(t.values - s_.values).max()) / den
+        if not e <= 1e-9:
+            V.append(viol("transform_equals_scores", mname, "field %d: transform(training data) differs from scores() by %.3e (relative) on large noisy fields with the default, lossy PCA pre-reduction %s" % (i, e, case["opts"]), big=True))
+    return dict(violations=V, outcome="violation" if V else "ok", nontrivial=not V)
 
 
 # ----------------------------------------------------------------------------- inputs
@@ -729,6 +793,8 @@ def _where(e):
 def run_case(case, seed):
     with warnings.catch_warnings():
         warnings.simplefilter("ignore")
+        if case.get("sweep") == "big":
+            return _run_big(case, seed)
         return _run(case, seed)
 
 
